@@ -119,6 +119,8 @@ private:
     uint64_t decShadowSeen{0};
     // simulated wall clock (simclock.cpp)
     uint64_t clockJumpSeed{0};
+    bool probed64{false};
+    bool shareInput{false};  // C19: receive buffers interned per content and shared between the threads
     uint64_t clockOffsetNs{0};
     uint64_t clockTicks{0};
     void syncClock();
@@ -140,6 +142,7 @@ private:
         bool fromWire{false};
         lib::BuildData prevBd;  // content of the previous step (near-identical follow-ups)
         bool hasPrevBd{false};
+        bool everSet{false};  // setData has been called on this object at least once
         Bytes wireHeader;  // from-wire objects: the header bytes they were born with (length / DLC bytes zeroed)
     };
     std::map<int, BuilderSlot> builders;
